@@ -869,3 +869,69 @@ func sConfigCodec(c *Ctx, rule string) {
 		c.Check(rule, "config-wire-type:"+tn, c.P.Pos(n.Obj().Pos()), "every field of "+tn+" is exported, untagged and of an encodable kind (what is stored in the log is the whole membership)", bad == "" && nf > 0, pick(bad == "", fmt.Sprintf("%d fields", nf), bad), nf)
 	}
 }
+
+
+// S-VOTEID: the identity under which a vote is recorded is the identity the
+// duplicate-vote test compares, and it is never empty for a request that
+// names its sender: req.Addr is used only when len(req.Addr) > 0 was
+// established, otherwise the (older) req.Candidate field. An empty recorded
+// candidate reads back as "no vote" and a second candidate of the same term is
+// granted.
+func sVoteIdentity(c *Ctx, rule string) {
+	fn := c.Fn(rule, "(*Raft).requestVote")
+	if fn == nil {
+		return
+	}
+	var persisted, compared ssa.Value
+	var persistCall ssa.Instruction
+	for _, s := range c.P.CallsIn(fn, engine.Is("(*Raft).persistVote")) {
+		persisted, persistCall = engine.ArgValue(s.Instr, 1), s.Instr
+	}
+	for _, s := range c.P.CallsIn(fn, engine.Is("bytes.Equal")) {
+		if strings.Contains(c.P.Arg(s.Instr, 0), "@keyLastVoteCand") {
+			compared = engine.ArgValue(s.Instr, 1)
+		} else if strings.Contains(c.P.Arg(s.Instr, 1), "@keyLastVoteCand") {
+			compared = engine.ArgValue(s.Instr, 0)
+		}
+	}
+	if persisted == nil || compared == nil {
+		c.Bad(rule, "requestVote:vote-identity", c.P.Pos(fn.Pos()), "a persistVote(term, candidate) call and a bytes.Equal(lastVoteCand, candidate) test", "not found")
+		return
+	}
+	same := c.P.D(persisted) == c.P.D(compared)
+	c.Check(rule, "requestVote:recorded-identity-is-compared-identity", c.P.InstrPos(persistCall), "the candidate bytes recorded with the vote are the bytes the repeated-vote test compares the stored candidate with", same, "recorded "+c.P.D(persisted)+" / compared "+c.P.D(compared), 1)
+	const addr, cand = "p2.RPCHeader.Addr", "p2.Candidate"
+	r := c.Run(&engine.Automaton{Fn: fn, Tracks: []engine.Track{
+		engine.PredRel("hasAddr", "len("+addr+")", "0", engine.GT),
+	}})
+	switch v := persisted.(type) {
+	case *ssa.Phi:
+		for i, e := range v.Edges {
+			d := c.P.D(e)
+			states := r.EdgeStates(v.Block().Preds[i], v.Block())
+			bad := ""
+			switch d {
+			case addr:
+				for _, st := range states {
+					if !st.T("hasAddr") {
+						bad = "req.Addr chosen without len(req.Addr) > 0: {" + st.String() + "}"
+					}
+				}
+			case cand:
+				// the older field: chosen when the header carries no address
+			default:
+				bad = "unexpected identity source " + d
+			}
+			c.Check(rule, "requestVote:identity-source "+d, c.P.InstrPos(persistCall), "the recorded identity is req.Addr only where len(req.Addr) > 0 holds, else req.Candidate (never an empty identity for an old-style request)", bad == "", pick(bad == "", fmt.Sprintf("%d edge states", len(states)), bad), len(states))
+		}
+	default:
+		d := c.P.D(persisted)
+		if d == cand {
+			c.Check(rule, "requestVote:identity-source "+d, c.P.InstrPos(persistCall), "the recorded identity is req.Candidate", true, "always req.Candidate", 1)
+			return
+		}
+		c.RequireAt(r, rule, "requestVote:identity-source "+d, persistCall, "the recorded identity is req.Addr only where len(req.Addr) > 0 holds, else req.Candidate (never an empty identity for an old-style request)", func(vw engine.View) bool {
+			return d == addr && vw.T("hasAddr")
+		})
+	}
+}
